@@ -497,14 +497,12 @@ func (s *Snapshotter) compact() error {
 	fh.Close()
 
 	// We now need to swap the old snapshot file with the new snapshot.
-	// Turns out, Windows won't let us rename the files if we have
-	// open handles to them or if the destination already exists. This
-	// means we are forced to close the existing handles, delete the
-	// old file, move the new one in place, and then re-open the file
-	// handles.
+	// Windows won't let us rename the files if we have open handles to
+	// them. This means we are forced to close the existing handles, move
+	// the new file in place, and then re-open the file handles.
 
 	// Flush the existing snapshot, ignoring errors since we will
-	// delete it momentarily.
+	// replace it momentarily.
 	_ = s.buffered.Flush()
 	s.buffered = nil
 
@@ -512,12 +510,10 @@ func (s *Snapshotter) compact() error {
 	s.fh.Close()
 	s.fh = nil
 
-	// Delete the old file
-	if err := os.Remove(s.path); err != nil {
-		return fmt.Errorf("failed to remove old snapshot: %v", err)
-	}
-
-	// Move the new file into place
+	// Move the new file into place. The rename atomically replaces the old
+	// snapshot (os.Rename replaces an existing destination on all supported
+	// platforms), so there is no point in time at which a crash leaves us
+	// without any snapshot.
 	if err := os.Rename(newPath, s.path); err != nil {
 		return fmt.Errorf("failed to install new snapshot: %v", err)
 	}
